@@ -4,7 +4,7 @@
 import os
 ROOT = os.path.dirname(os.path.dirname(os.path.dirname(os.path.abspath(__file__))))
 PKGS = {"crypto/dpop": "dpop", "vdr/resolver": "resolver", "vcr/revocation": "revocation", "network/dag/tree": "tree",
-        "zzverif/c19bb": "c19bb", "auth/api/iam": "iam", "vdr/didnuts": "didnuts", "network/transport/v2": "v2", "vcr/verifier": "verifier", "auth/client/iam": "iam", "discovery": "discovery", "http/client": "client"}
+        "zzverif/c19bb": "c19bb", "auth/api/iam": "iam", "vdr/didnuts": "didnuts", "network/transport/v2": "v2", "vcr/verifier": "verifier", "auth/client/iam": "iam", "discovery": "discovery", "http/client": "client", "vdr/didweb": "didweb"}
 def gen():
     tmpl = open(os.path.join(ROOT, "harness", "c19", "common.go.tmpl")).read()
     for pkg, name in PKGS.items():
